@@ -314,7 +314,7 @@ StateAndCovariance = namedtuple("StateAndCovariance", ["state", "covariance"])
 
 
 def assert_valid_covariance(
-    covariance: NDArray, *, name: str = "Covariance", negative_tol: float = -1e-15
+    covariance: NDArray, *, name: str = "Covariance", negative_tol: float = -1e-9
 ):
     """
     Check that the covariance array is well formed:
@@ -326,8 +326,9 @@ def assert_valid_covariance(
     assert np.allclose(covariance, covariance.T)
 
     covariance_eigenvalues = np.linalg.eig(covariance)[0]
-    # Rounding error in the eigenvalues grows with the size of the matrix and
-    # is relative to the largest eigenvalue
+    # Rounding error in the eigenvalues grows with the size of the matrix, is
+    # relative to the largest eigenvalue and accumulates over a history of
+    # prediction and update steps
     scale = max(1, len(covariance_eigenvalues)) * max(
         1.0, float(np.max(np.abs(covariance_eigenvalues), initial=0.0))
     )
